@@ -415,6 +415,21 @@ def b_setattr(eng, st, args, kw, origin):
         for o in eng.set_attr(st, obj, name.py, v, origin):
             outs.append((o.st, Raise(o.val) if o.kind == "raise" else VC(None)))
         return outs
+    if S.is_strlike(name) and isinstance(obj, VObj):
+        # symbolic attribute name on a record: one path per existing field; an unknown name would create a new attribute
+        fields = [k for k in st.store[obj.oid] if not k.startswith("__")]
+        outs, conds = [], []
+        for f in fields:
+            c = S.eq(eng, st, name, VC(f))
+            conds.append(c)
+            s1 = eng.branch(st, c)
+            if s1 is not None:
+                s1.store[obj.oid][f] = v
+                outs.append((s1, VC(None)))
+        s0 = eng.branch(st, z3.Not(z3.Or(*conds)) if conds else True)
+        if s0 is not None:
+            raise Unsupported("setattr with a symbolic name that may not be an existing field")
+        return outs
     raise Unsupported("setattr with symbolic name")
 
 
